@@ -4,6 +4,10 @@ import (
 	"bytes"
 	"fmt"
 	"math/rand"
+	"os"
+	"path/filepath"
+	"strconv"
+	"strings"
 	"sync/atomic"
 	"time"
 
@@ -120,6 +124,7 @@ type checkStats struct {
 	resumedReads     int
 	spotReads        int
 	transientDropped int
+	midChecks        int
 }
 
 // world is what the harness knows about the histories of a case: every replication id used, the
@@ -178,11 +183,22 @@ func (w *world) metaFindings(s chanState, ctx string) []finding {
 	return out
 }
 
+func (a *checkStats) add(b checkStats) {
+	a.bytesCompared += b.bytesCompared
+	a.leaderCompared += b.leaderCompared
+	a.refusedSnapshot += b.refusedSnapshot
+	a.refusedLog += b.refusedLog
+	a.resumedReads += b.resumedReads
+	a.spotReads += b.spotReads
+	a.transientDropped += b.transientDropped
+	a.midChecks += b.midChecks
+}
+
 // checkFollower verifies everything the follower's channel declares valid under its current id:
 // log range readable end to end, contiguous, byte == PRF(id, offset); offered snapshot complete and
 // == PRF(id, left, i); and (when the leader holds the same id) byte-identical to the leader's copy.
 // ids = every replication id used in the case (to tell whose bytes a mismatching run is).
-func checkFollower(fc, lc syncer.Channel, wd *world, rng *rand.Rand, ctx string, quiescent bool, st *checkStats) (s chanState, out []finding) {
+func checkFollower(fc, lc syncer.Channel, fdir string, wd *world, rng *rand.Rand, ctx string, quiescent bool, st *checkStats) (s chanState, out []finding) {
 	s = stateOf(fc)
 	if s.ID == "" {
 		return s, nil
@@ -198,13 +214,35 @@ func checkFollower(fc, lc syncer.Channel, wd *world, rng *rand.Rand, ctx string,
 				// the cache was re-labelled or reset while it was being read (the disk backend opens
 				// readers by offset only): what was read cannot be attributed to the sampled state
 				st.transientDropped += len(out)
+				for _, f := range out {
+					fmt.Printf("DROPPED (state moved %v -> %v) %s: %s\n", s, now, f.Sig, f.What)
+				}
 				out = nil
 			}
 		}()
 	}
 	out = append(out, wd.metaFindings(s, ctx)...)
+	// Side finding S3 (pkg/store/ds.go, not this property): dataSetRdb.Close() closes its readers and
+	// writer while holding its own mutex, and their close observers (DelReader/DelWriter) take that
+	// mutex again: resetting a disk cache (DelRunId, NewRdbWriter) while a snapshot reader is open
+	// dead-locks the whole Storer.  The disk backend opens readers by offset only, so while Run() is
+	// active any NewReader of the monitor may turn out to be a snapshot reader.  Hence, while the
+	// follower is working, a disk cache is read back from its files (no lock taken, nothing
+	// registered) and the leader's disk cache is not read at all; through the API only once the
+	// follower has stopped.
+	_, fDisk := fc.(*syncer.StoreChannel)
+	_, lDisk := lc.(*syncer.StoreChannel)
+	if !quiescent && lDisk {
+		lc = nil
+	}
 	cur := s.ID
 	key := aofKey(cur)
+	if !quiescent && fDisk {
+		if fdir != "" {
+			out = append(out, diskFilesCheck(fdir, s, wd, ctx, st)...)
+		}
+		return s, out
+	}
 	whose := func(data []byte, at int, off int64) string {
 		for _, o := range ids {
 			if o != cur && matchesAt(data, at, aofKey(o), off, 32) {
@@ -360,6 +398,8 @@ func checkFollower(fc, lc syncer.Channel, wd *world, rng *rand.Rand, ctx string,
 			st.refusedSnapshot++ // declared, but nothing is served: fail-safe
 		case res.isAof:
 			// a log segment covers the offset below the snapshot: the snapshot is not what is served
+		case !quiescent && (res.left != s.RdbLeft || res.size != s.RdbSize):
+			// the reader is one of a newer snapshot than the sampled declaration
 		default:
 			st.bytesCompared += int64(len(res.data))
 			rk := rdbKey(cur, s.RdbLeft)
@@ -401,6 +441,91 @@ func checkFollower(fc, lc syncer.Channel, wd *world, rng *rand.Rand, ctx string,
 		}
 	}
 	return s, out
+}
+
+// diskFilesCheck reads what a disk cache holds for its declared state straight from the files of
+// <dir>/<run id>/ : <left>.aof = 16-byte header + the log bytes from offset <left>;
+// <left>_<size>.rdb(.tmp) = the snapshot taken at <left>.  Only files backing the declared range /
+// snapshot are judged, only bytes present (files in the making are prefixes).
+func diskFilesCheck(dir string, s chanState, wd *world, ctx string, st *checkStats) []finding {
+	var out []finding
+	d := filepath.Join(dir, s.ID)
+	ents, err := os.ReadDir(d)
+	if err != nil {
+		return nil
+	}
+	key := aofKey(s.ID)
+	base := func() map[string]any {
+		return map[string]any{"where": ctx + " (files)", "follower_declares": s}
+	}
+	for _, e := range ents {
+		name := e.Name()
+		switch {
+		case strings.HasSuffix(name, ".aof") && s.Left >= 0 && s.Right > s.Left:
+			left, err := strconv.ParseInt(strings.TrimSuffix(name, ".aof"), 10, 64)
+			if err != nil {
+				continue
+			}
+			b, err := os.ReadFile(filepath.Join(d, name))
+			if err != nil || len(b) <= 16 {
+				continue
+			}
+			b = b[16:]
+			a, z := left, left+int64(len(b))
+			if a < s.Left {
+				a = s.Left
+			}
+			if z > s.Right {
+				z = s.Right
+			}
+			if z <= a {
+				continue
+			}
+			seg := b[a-left : z-left]
+			st.bytesCompared += int64(len(seg))
+			if i := firstDiff(seg, key, a); i >= 0 {
+				off := a + int64(i)
+				dd := base()
+				dd["file"], dd["first_bad_offset"], dd["got"] = name, off, hexSnippet(seg, i, 24)
+				sig, what := "bytes-differ", fmt.Sprintf("follower stores in %s a byte at offset %d of id %.8s that the leader's stream does not have there", name, off, s.ID)
+				for _, o := range wd.ids {
+					if o != s.ID && matchesAt(seg, i, aofKey(o), off, 32) {
+						sig, what = "two-ids-under-one-id", fmt.Sprintf("follower stores under id %.8s, at declared-valid offset %d, the bytes of id %.8s", s.ID, off, o)
+						dd["bytes_belong_to_id"] = o
+					}
+				}
+				out = append(out, finding{Sig: sig, What: what, Detail: dd})
+			}
+		case s.RdbLeft >= 0 && (name == fmt.Sprintf("%d_%d.rdb", s.RdbLeft, s.RdbSize) || name == fmt.Sprintf("%d_%d.rdb.tmp", s.RdbLeft, s.RdbSize)):
+			b, err := os.ReadFile(filepath.Join(d, name))
+			if err != nil || len(b) == 0 {
+				continue
+			}
+			if int64(len(b)) > s.RdbSize {
+				b = b[:s.RdbSize]
+			}
+			st.bytesCompared += int64(len(b))
+			if i := firstDiff(b, rdbKey(s.ID, s.RdbLeft), 0); i >= 0 {
+				dd := base()
+				dd["file"], dd["first_bad_snapshot_byte"], dd["got"] = name, i, hexSnippet(b, i, 24)
+				sig, what := "snapshot-bytes-differ", fmt.Sprintf("follower's snapshot at %d of id %.8s differs from the leader's at byte %d", s.RdbLeft, s.ID, i)
+				for _, o := range wd.ids {
+					if o != s.ID && matchesAt(b, i, rdbKey(o, s.RdbLeft), int64(i), 32) {
+						sig, what = "two-ids-under-one-id", fmt.Sprintf("follower stores under id %.8s the snapshot bytes of id %.8s", s.ID, o)
+					}
+				}
+				for _, x := range wd.snaps[s.ID] {
+					if x.Left != s.RdbLeft && matchesAt(b, i, rdbKey(s.ID, x.Left), int64(i), 32) {
+						sig, what = "snapshot-of-another-offset", fmt.Sprintf(
+							"follower stores a snapshot at offset %d of id %.8s whose bytes are the id's snapshot taken at offset %d", s.RdbLeft, s.ID, x.Left)
+						dd["bytes_are_snapshot_of_offset"] = x.Left
+					}
+				}
+				out = append(out, finding{Sig: sig, What: what, Detail: dd})
+			}
+		}
+	}
+	return out
 }
 
 // shiftOf: does the mismatching run equal the stream of the same id at another offset (a later
